@@ -714,6 +714,8 @@ class Fxp():
 
                 if n_frac is not None and n_frac == 0:
                     vdtype = int
+                elif raw:
+                    vdtype = None   # raw codes parsed from strings are integers: they keep the dtype of the converted array
                 else:
                     vdtype = float
 
